@@ -1,4 +1,5 @@
 import St4sd.Model.Repl
+import St4sd.Model.ReplVars
 import St4sd.Lemmas.C03Text
 /-!
 # C03 — Replication expands a workflow without changing its dataflow
@@ -15,6 +16,11 @@ topological order, by induction over that order (`go_inv`).
 * `expand_wiring`, `aggregator_wiring` — copy `i` consumes copy `i` of a replicated producer and the
   single instance of any other producer; an aggregator consumes the copies `0..N-1` in index order;
 * `expand_closed` — every component reference of the result names a component of the result;
+* `visible_lookup`, `count_own_chain`, `aggregate_own_chain`, `count_independent_of_siblings`,
+  `resolveAll_perm`, `resolveComp_scope_only`, `expandRaw_ok` — a replica count / aggregate flag given
+  through a variable is resolved in the scope chain of the component itself (own variables over the
+  variables of its stage over the global ones), whatever the other components of the workflow define
+  for themselves and in whatever order the components are processed;
 * `text_refines_graph_partial` — for the repaired code the textual rewriting of a `references` entry of a
   copy equals the rendering of the graph-level rewriting, under two decidable side conditions (see there).
 -/
@@ -437,6 +443,224 @@ example : (expand wfEx).toOption.map (·.map fun o => (String.ofList o.name, o.r
 example : (match expand [ { stage := 0, name := "A".toList, refs := [], repl := some 2, agg := false },
                           { stage := 0, name := "C".toList, refs := [rA], repl := some 3, agg := false } ] with
     | .error .inconsistent => true
+    | _ => false) = true := by decide
+
+/-! ## replica counts and aggregate flags given through variables -/
+
+theorem lookup_override (old new : Vars) (k : S) :
+    lookup (override old new) k = (lookup new k).or (lookup old k) := by
+  unfold override
+  induction new with
+  | nil => simp [lookup]
+  | cons e new ih =>
+    obtain ⟨k', v⟩ := e
+    simp only [List.cons_append, lookup]
+    split <;> simp [ih]
+
+/-- **Layering** (the scope chain of C04): a name visible to a component has the value the component
+gives it itself, else the value of its stage, else the global value. -/
+theorem visible_lookup (g s own : Vars) (k : S) :
+    lookup (visible g s own) k = (lookup own k).or ((lookup s k).or (lookup g k)) := by
+  simp [visible, lookup_override]
+
+/-- the value of `name` in the scope chain of `r` -/
+def chain (g : Vars) (st : Nat → Vars) (r : Raw) (name : S) : Option S :=
+  (lookup r.vars name).or ((lookup (st r.stage) name).or (lookup g name))
+
+/-- **The count a component requests through a variable is the value of that variable in its own scope
+chain**: `replicate: %(v)s` resolves to `int` of the first of (own variables, stage variables, global
+variables) that defines `v`. -/
+theorem count_own_chain (g : Vars) (st : Nat → Vars) (r : Raw) (c : Comp) (v : S)
+    (h : resolveComp g st r = .ok c) (hv : r.replicate = .var v) :
+    ∃ t n, chain g st r v = some t ∧ digitsToNat? t = some n ∧ c.repl = some n := by
+  unfold resolveComp resolveIn countIn fillIn at h
+  rw [hv] at h
+  simp only [visible_lookup] at h
+  unfold chain
+  cases hl : (lookup r.vars v).or ((lookup (st r.stage) v).or (lookup g v)) with
+  | none => simp [hl] at h
+  | some t =>
+    simp only [hl] at h
+    cases hd : digitsToNat? t with
+    | none => simp [hd] at h
+    | some n =>
+      simp only [hd] at h
+      refine ⟨t, n, rfl, hd, ?_⟩
+      split at h
+      · cases h
+      · rename_i n' a heq
+        split at heq
+        · cases heq
+        · simp only [Except.ok.injEq, Prod.mk.injEq] at heq
+          simp only [Except.ok.injEq] at h
+          subst h
+          exact heq.1.symm
+
+/-- the same for `aggregate: %(v)s` -/
+theorem aggregate_own_chain (g : Vars) (st : Nat → Vars) (r : Raw) (c : Comp) (v : S)
+    (h : resolveComp g st r = .ok c) (hv : r.aggregate = .var v) :
+    ∃ t, chain g st r v = some t ∧ toBool t = some c.agg := by
+  unfold resolveComp resolveIn at h
+  split at h
+  · cases h
+  · rename_i n a heq
+    split at heq
+    · cases heq
+    · rename_i n' hn
+      split at heq
+      · cases heq
+      · rename_i a' ha
+        simp only [Except.ok.injEq, Prod.mk.injEq] at heq
+        simp only [Except.ok.injEq] at h
+        subst h
+        obtain ⟨-, rfl⟩ := heq
+        unfold aggIn fillIn at ha
+        rw [hv] at ha
+        simp only [visible_lookup] at ha
+        unfold chain
+        cases hl : (lookup r.vars v).or ((lookup (st r.stage) v).or (lookup g v)) with
+        | none => simp [hl] at ha
+        | some t =>
+          simp only [hl] at ha
+          refine ⟨t, rfl, ?_⟩
+          cases hb : toBool t with
+          | none => simp [hb] at ha
+          | some b => simp only [hb, Except.ok.injEq] at ha; simp [ha]
+
+/-- The resolution of a component reads the variables of no other stage. -/
+theorem resolveComp_scope_only (g : Vars) (st st' : Nat → Vars) (r : Raw) (h : st r.stage = st' r.stage) :
+    resolveComp g st r = resolveComp g st' r := by
+  unfold resolveComp
+  rw [h]
+
+private theorem resolveAll_cons {g : Vars} {st : Nat → Vars} {r : Raw} {rs : List Raw} {out : List Comp} :
+    resolveAll g st (r :: rs) = .ok out ↔
+      ∃ c cs, resolveComp g st r = .ok c ∧ resolveAll g st rs = .ok cs ∧ out = c :: cs := by
+  simp only [resolveAll]
+  constructor
+  · intro h
+    split at h
+    · cases h
+    · rename_i c hc
+      split at h
+      · cases h
+      · rename_i cs hcs
+        simp only [Except.ok.injEq] at h
+        exact ⟨c, cs, hc, hcs, h.symm⟩
+  · rintro ⟨c, cs, hc, hcs, rfl⟩
+    simp [hc, hcs]
+
+private theorem resolveAll_append {g : Vars} {st : Nat → Vars} (pre post : List Raw) (out : List Comp) :
+    resolveAll g st (pre ++ post) = .ok out ↔
+      ∃ o1 o2, resolveAll g st pre = .ok o1 ∧ resolveAll g st post = .ok o2 ∧ out = o1 ++ o2 ∧
+        o1.length = pre.length := by
+  induction pre generalizing out with
+  | nil =>
+    constructor
+    · intro h; exact ⟨[], out, rfl, h, rfl, rfl⟩
+    · rintro ⟨o1, o2, h1, h2, rfl, hl⟩
+      simp only [resolveAll, Except.ok.injEq] at h1
+      subst h1
+      simpa using h2
+  | cons r pre ih =>
+    simp only [List.cons_append]
+    rw [resolveAll_cons]
+    constructor
+    · rintro ⟨c, cs, hc, hcs, rfl⟩
+      obtain ⟨o1, o2, h1, h2, rfl, hl⟩ := (ih cs).mp hcs
+      exact ⟨c :: o1, o2, resolveAll_cons.mpr ⟨c, o1, hc, h1, rfl⟩, h2, rfl, by simp [hl]⟩
+    · rintro ⟨o1, o2, h1, h2, rfl, hl⟩
+      obtain ⟨c, cs, hc, hcs, rfl⟩ := resolveAll_cons.mp h1
+      refine ⟨c, cs ++ o2, hc, (ih _).mpr ⟨cs, o2, hcs, h2, rfl, by simpa using hl⟩, rfl⟩
+
+/-- **The count (and the aggregate flag) a component ends up with does not depend on its siblings.**
+Whatever components are processed before and after `r` — with whatever variables of their own — and in
+whatever position `r` is processed, the resolution loop records for `r` the value `resolveComp g st r`,
+which is a function of the global scope, the scope of `r`'s stage and `r`'s own variables only
+(`resolveIn`). -/
+theorem count_independent_of_siblings (g : Vars) (st : Nat → Vars) (r : Raw)
+    (pre post pre' post' : List Raw) (out out' : List Comp)
+    (h : resolveAll g st (pre ++ r :: post) = .ok out)
+    (h' : resolveAll g st (pre' ++ r :: post') = .ok out') :
+    ∃ c, resolveComp g st r = .ok c ∧ out[pre.length]? = some c ∧ out'[pre'.length]? = some c := by
+  obtain ⟨o1, o2, _, h2, rfl, hl⟩ := (resolveAll_append pre (r :: post) out).mp h
+  obtain ⟨o1', o2', _, h2', rfl, hl'⟩ := (resolveAll_append pre' (r :: post') out').mp h'
+  obtain ⟨c, cs, hc, _, rfl⟩ := resolveAll_cons.mp h2
+  obtain ⟨c', cs', hc', _, rfl⟩ := resolveAll_cons.mp h2'
+  have : c' = c := by
+    rw [hc] at hc'
+    simpa using hc'.symm
+  subst this
+  refine ⟨c', hc, ?_, ?_⟩
+  · rw [← hl]; simp
+  · rw [← hl']; simp
+
+/-- **Every processing order gives the same resolved components**: permuting the components handed to the
+resolution loop permutes its result accordingly. -/
+theorem resolveAll_perm (g : Vars) (st : Nat → Vars) {wf wf' : List Raw} (hp : wf.Perm wf') :
+    ∀ out, resolveAll g st wf = .ok out → ∃ out', resolveAll g st wf' = .ok out' ∧ out.Perm out' := by
+  induction hp with
+  | nil => intro out h; exact ⟨out, h, List.Perm.refl _⟩
+  | cons x _ ih =>
+    intro out h
+    obtain ⟨c, cs, hc, hcs, rfl⟩ := resolveAll_cons.mp h
+    obtain ⟨cs', h', hp'⟩ := ih cs hcs
+    exact ⟨c :: cs', resolveAll_cons.mpr ⟨c, cs', hc, h', rfl⟩, hp'.cons c⟩
+  | swap x y l =>
+    intro out h
+    obtain ⟨c, cs, hc, hcs, rfl⟩ := resolveAll_cons.mp h
+    obtain ⟨c2, cs2, hc2, hcs2, rfl⟩ := resolveAll_cons.mp hcs
+    exact ⟨c2 :: c :: cs2, resolveAll_cons.mpr ⟨c2, _, hc2, resolveAll_cons.mpr ⟨c, cs2, hc, hcs2, rfl⟩, rfl⟩,
+      List.Perm.swap c2 c cs2⟩
+  | trans _ _ ih1 ih2 =>
+    intro out h
+    obtain ⟨o1, h1, p1⟩ := ih1 out h
+    obtain ⟨o2, h2, p2⟩ := ih2 o1 h1
+    exact ⟨o2, h2, p1.trans p2⟩
+
+/-- `apply_replicate` on a raw document is the expansion (`expand`, all theorems above) of the components
+with their attributes resolved as `count_own_chain` / `aggregate_own_chain` say. -/
+theorem expandRaw_ok (g : Vars) (st : Nat → Vars) (wf : List Raw) (out : List Comp)
+    (h : expandRaw g st wf = .ok out) : ∃ cs, resolveAll g st wf = .ok cs ∧ expand cs = .ok out := by
+  unfold expandRaw at h
+  split at h
+  · cases h
+  · rename_i cs hcs
+    split at h
+    · cases h
+    · rename_i o ho
+      simp only [Except.ok.injEq] at h
+      subst h
+      exact ⟨cs, hcs, ho⟩
+
+/-- `calibrate` defines `numberPoints: 1` for itself, `simulate` (same stage) asks for `%(numberPoints)s`
+replicas and does not define it: the global value (4) -/
+def rawCalibrate : Raw :=
+  { stage := 0, name := "calibrate".toList, refs := [], vars := [("numberPoints".toList, "1".toList)],
+    replicate := .absent, aggregate := .absent }
+def rawSimulate : Raw :=
+  { stage := 0, name := "simulate".toList, refs := [{ rA with name := "calibrate".toList }], vars := [],
+    replicate := .var "numberPoints".toList, aggregate := .absent }
+def rawCollect : Raw :=
+  { stage := 0, name := "collect".toList, refs := [{ rA with name := "simulate".toList }],
+    vars := [("doAgg".toList, "yes".toList)], replicate := .absent, aggregate := .var "doAgg".toList }
+def gEx : Vars := [("numberPoints".toList, "4".toList), ("doAgg".toList, "no".toList)]
+
+example : (expandRaw gEx (fun _ => []) [rawCalibrate, rawSimulate, rawCollect]).toOption.map
+      (·.map fun o => (String.ofList o.name, o.replica, o.refs.map fun r => String.ofList (render r))) =
+    some [("calibrate", none, []), ("simulate0", some 0, ["calibrate:ref"]), ("simulate1", some 1, ["calibrate:ref"]),
+          ("simulate2", some 2, ["calibrate:ref"]), ("simulate3", some 3, ["calibrate:ref"]),
+          ("collect", none, ["stage0.simulate0:ref", "stage0.simulate1:ref", "stage0.simulate2:ref",
+                             "stage0.simulate3:ref"])] := by decide
+
+/-- the stage scope overrides the global one, the component's own scope overrides both -/
+example : (resolveAll gEx (stageVars [(0, [("numberPoints".toList, "2".toList)])])
+      [rawSimulate, { rawSimulate with vars := [("numberPoints".toList, "3".toList)] }, { rawSimulate with stage := 1 }]
+    ).toOption.map (·.map (·.repl)) = some [some 2, some 3, some 4] := by decide
+
+/-- a variable that only a sibling defines is not visible -/
+example : (match resolveAll [] (fun _ => []) [rawCalibrate, rawSimulate] with
+    | .error .unresolved => true
     | _ => false) = true := by decide
 
 /-! ## text level -/
